@@ -36,7 +36,10 @@
 (*            key (pb = "ok"), another member's key ("foreign") or has a   *)
 (*            flipped byte ("corrupt"); j = claimed weight; the BLS        *)
 (*            signature of v joining the aggregate covers (block sb, round *)
-(*            sr, index si), sb = 0: no signature of this entry            *)
+(*            sr, index si), sb = 0: no signature of this entry; bk = 1:   *)
+(*            the signature was made with the BLS key the validator has in *)
+(*            the SIBLING configuration (another epoch of the same chain:  *)
+(*            same main key, re-registered BLS key), not the registered one*)
 (*   agg    : "ok" = the aggregate is the sum of those signatures,         *)
 (*            "flip" / "unrelated" = corrupted / a stranger's signature    *)
 (*   cf     : header.Certificate -- "list": cvotes / cagg / cfidx below;   *)
@@ -92,6 +95,12 @@ Named(F, X, x) == IF ~Member(F, x.v) THEN 0
 \* whose key made the proof
 Prover(F, x) == IF x.pb = "foreign" THEN (x.v % NV(F)) + 1 ELSE x.v
 
+\* the header fields that the header HASH covers are those of the honest header of the fixture (the hash does not cover
+\* header.Validator, header.Signature, header.Certificate): proposer credential, round index and declared thresholds
+HonestPropOf(G, p, T, i) == [p |-> p, ci |-> i, cs |-> StepProposal, cd |-> 1, pb |-> "ok",
+                             j |-> IF Member(G, p) THEN Max0(Seat(G, p, T, i, StepProposal, 1)) ELSE 1, prio |-> "ok"]
+SameHash(F, h) == h.prop = HonestPropOf(F, F.prop, F.protoP, 1) /\ h.pidx = 1 /\ h.declV = F.protoV /\ h.declP = F.protoP
+
 (***************************************************************************)
 (* DESIGN LAYER: what consensus.go does (verifyConsensusFieldMain,         *)
 (* verifyVotes BLS path, VerifyAcHeader), step by step.                    *)
@@ -122,11 +131,11 @@ Scan(F, X, n, seen, count, pubs) ==
                   ELSE Scan(F, X, n + 1, seen, count, pubs2)                       \* skipped, not marked
 
 \* VerifyAggregatedOne(pubs, payload(this hash, round, X.idx), sig): equality of two sums of signatures = equality of bags
-SigBag(X) == [n \in { m \in DOMAIN X.votes : X.votes[m].sb # 0 } |-> <<X.votes[n].v, X.votes[n].sb, X.votes[n].sr, X.votes[n].si>>]
+SigBag(X) == [n \in { m \in DOMAIN X.votes : X.votes[m].sb # 0 } |-> <<X.votes[n].v, X.votes[n].sb, X.votes[n].sr, X.votes[n].si, X.votes[n].bk>>]
 Occ(f, t) == Cardinality({ n \in DOMAIN f : f[n] = t })
 AggVerifies(X, pubs) ==
    LET sb == SigBag(X)
-       need == [n \in DOMAIN pubs |-> <<pubs[n], 1, 1, X.idx>>]
+       need == [n \in DOMAIN pubs |-> <<pubs[n], 1, 1, X.idx, 0>>]      \* under the BLS key registered in the look-back set
        elems == { sb[n] : n \in DOMAIN sb } \cup { need[n] : n \in DOMAIN need } IN
    /\ X.agg = "ok"
    /\ Len(pubs) > 0 /\ DOMAIN sb # {}     \* the pairing library dereferences nil on the neutral element (no keys / the
@@ -145,6 +154,9 @@ CodeCert(F, h, kind) == h.cf = "list" /\ CodeVotes(F, VX(F, h, kind))
 CodeAccepts(F, h) == /\ CodeProposer(F, h)
                      /\ CodeVotes(F, VX(F, h, "pre"))
                      /\ F.certRound => CodeCert(F, h, "cert")       \* otherwise header.Certificate is not consulted at all
+\* VerifyHeader / VerifyHeaders when the chain already stores the honest header at this number: verifyCascadingFields refuses a
+\* header with another hash (ErrExistCanonical); a header with the SAME hash (only fields outside the hash differ) is verified in full
+CodeAcceptsKnown(F, h) == CodeAccepts(F, h) /\ SameHash(F, h)
 \* VerifyAcHeader: the CHT certificates only
 CodeAcceptsAC(F, h) == F.certRound /\ CodeCert(F, h, "ac")
 
@@ -171,7 +183,7 @@ ClauseOf(c) ==
    CASE c \in {"non_member", "offline_member", "house_member"} -> "VotersEntitled"
      [] c = "duplicate" -> "DistinctVoters"
      [] c \in {"wrong_index", "wrong_step", "wrong_round", "foreign_proof", "corrupt_proof", "inflated_j"} -> "CredentialBinds"
-     [] c \in {"wrong_block", "wrong_round_sig", "wrong_index_sig", "unsigned", "bad_aggregate"} -> "SignatureOverBlock"
+     [] c \in {"wrong_block", "wrong_round_sig", "wrong_index_sig", "unsigned", "bad_aggregate", "retired_key"} -> "SignatureOverBlock"
      [] c = "declared_threshold" -> "CommitteeSizeFromProtocol"
      [] c = "short" -> "QuorumReached"
      [] OTHER -> "Unclassified"
@@ -181,7 +193,7 @@ ClauseX(kind, c) == IF kind = "pre" THEN ClauseOf(c) ELSE IF kind = "cert" THEN 
 
 \* the aggregate contains validator u's signature over this block's hash, this round and the round index of the vote set
 SignedOK(X, u) == /\ X.agg = "ok"
-                  /\ \E m \in DOMAIN X.votes : X.votes[m].v = u /\ X.votes[m].sb = 1 /\ X.votes[m].sr = 1 /\ X.votes[m].si = X.idx
+                  /\ \E m \in DOMAIN X.votes : X.votes[m].v = u /\ X.votes[m].sb = 1 /\ X.votes[m].sr = 1 /\ X.votes[m].si = X.idx /\ X.votes[m].bk = 0
 
 \* classes of vote entry n (all but "duplicate", which is a class of the list), judged for the validator the entry NAMES
 VLab(F, X, n) ==
@@ -204,6 +216,7 @@ VLab(F, X, n) ==
          ELSE IF SignedOK(X, IF u = 0 THEN x.v ELSE u) THEN {}                         \* (of that validator, whichever entry carries it)
          ELSE IF x.sb = 0 \/ (u # 0 /\ x.v # u) THEN {"unsigned"}
          ELSE (IF x.sb # 1 THEN {"wrong_block"} ELSE {})
+              \cup (IF x.bk # 0 THEN {"retired_key"} ELSE {})
               \cup (IF x.sr # 1 THEN {"wrong_round_sig"} ELSE {})
               \cup (IF x.si # X.idx THEN {"wrong_index_sig"} ELSE {}))
 
